@@ -75,6 +75,8 @@ class Calc(object):
             p[0] = p[1] * p[3]
         elif p[2] == '/':
             p[0] = p[1] // p[3]
+        elif p[2] in ('<<', '>>') and not 0 <= p[3] <= 64:
+            raise ParseError("shift count '%s' out of range" % p[3])
         elif p[2] == '<<':
             p[0] = p[1] << p[3]
         elif p[2] == '>>':
